@@ -350,6 +350,42 @@ def check_aec(run, rule):
                 ok = True
                 why = "the count stored under the event's key is incremented once (a new key starts at 0)"
                 hit = direct[0]
+        if hit is None and not ok:
+            # third spelling: `res = map.insert({key, 1}); if (!res.second) res.first->second++;`
+            for d_ in ir.walk(f["body"]):
+                if d_.get("k") != "Decl":
+                    continue
+                for v_ in d_.get("vars", []):
+                    init_ = unwrap(v_.get("init")) if v_.get("init") is not None else None
+                    if not (isinstance(init_, dict) and init_.get("k") == "MCall" and callee_name(init_) in ("insert", "emplace") and
+                            (path(init_.get("recv")) or ())[-1:] == ("m_address_event_counts",)):
+                        continue
+                    args_ = init_.get("args", [])
+                    one = None
+                    if callee_name(init_) == "emplace" and len(args_) == 2:
+                        one = const_value(args_[1])
+                    elif len(args_) == 1:
+                        pr = ir.unwrap_all_casts(args_[0])
+                        while isinstance(pr, dict) and pr.get("k") in ("Construct", "Temp", "Bind") and len(pr.get("args", [])) == 1:
+                            pr = ir.unwrap_all_casts(pr["args"][0])
+                        if isinstance(pr, dict) and pr.get("k") in ("Construct", "InitList"):
+                            el = pr.get("args") or pr.get("c") or []
+                            if len(el) == 2:
+                                one = const_value(el[1])
+                    rname = "l:%s#%s" % (v_.get("n"), v_.get("id"))
+                    for i_ in ir.walk(f["body"]):
+                        if i_.get("k") != "If" or i_.get("else") is not None:
+                            continue
+                        ct = show(i_["cond"]).replace("(", "").replace(")", "")
+                        if ct != "!%s.second" % rname:
+                            continue
+                        incs_ = [x for x in ir.walk(i_["then"]) if (x.get("k") == "Un" and x.get("op") in ("post++", "pre++")) or
+                                 (x.get("k") == "Bin" and x.get("op") == "+=" and const_value(x["rhs"]) == 1)]
+                        if len(incs_) == 1 and ("%s.first" % rname) in show(incs_[0]) and "second" in show(incs_[0]):
+                            hit = i_
+                            ok = one == 1
+                            why = "a new key is inserted with count 1, an existing one is incremented (single insert())" if ok else \
+                                "insert() stores the initial count %s, a first occurrence must count 1" % one
         run.ob(rule, tag + ":aggregate", ok, f, hit["l"] if hit else f["line"], why)
     bw = facts.fn("CDNS::CdnsBlock::write", rule=rule)
     ok = False
